@@ -509,6 +509,8 @@ def withoutContainers (rules : List String) : List String :=
 
 /-- `BlockParser.parse_block_quote` -/
 def parseBlockQuote (cfg : MdCfg) (pm : ParseMethod) (mt : RxMatch) (st : BlockState) : PMRes := do
+  -- the block that ends the quote is parsed during extraction and may leave several tokens
+  let tokIndex := st.tokens.length
   let (text, endPos, st) ← extractBlockQuote cfg pm mt st
   -- scan children state
   let child := st.childState text
@@ -521,7 +523,7 @@ def parseBlockQuote (cfg : MdCfg) (pm : ParseMethod) (mt : RxMatch) (st : BlockS
   let st := { st with env := child.env }
   let token := tok "block_quote" [("children", .arr child.tokens)]
   if truthyPos endPos then
-    return (endPos, st.prependToken token)
+    return (endPos, { st with tokens := listInsert st.tokens tokIndex token })
   return (some st.cursor, st.appendToken token)
 
 /-! ### list_parser.py -/
